@@ -33,7 +33,7 @@ import (
 	"verifharness/cv"
 )
 
-const longWait = 3 * time.Second
+const longWait = 10 * time.Second
 
 var grace = 3 * time.Millisecond
 
@@ -667,6 +667,7 @@ type wsDriver struct {
 	subCancelled map[int]bool
 	maxID        uint64
 	failed       string
+	closedSubs   sync.Map // sub handle -> its notifications channel was seen closed
 }
 
 func (d *wsDriver) add(coq, desc string) { d.ops = append(d.ops, coq); d.dops = append(d.dops, desc) }
